@@ -31,6 +31,7 @@ type CEnv struct {
 	fn        *ssa.Function
 	specHeaps map[string]bool // when compiling a spec function: heaps read
 	inSpec    bool
+	noUnfold  bool
 	oldVars   map[string]*CV // entry-time bindings (parameters), used by old()
 }
 
@@ -626,9 +627,10 @@ func (x *Exec) evalIndex(env *CEnv, n *CIndex) (*CV, error) {
 	case *types.Slice:
 		es := x.sortOf(u.Elem())
 		if env.specHeaps != nil {
-			env.specHeaps[x.heapName(es)] = true
+			env.specHeaps[x.heapName(u.Elem())] = true
 		}
-		return &CV{T: x.heapRead(env.st, es, sBase(bt), App(SBV64, "bvadd", sOff(bt), it)), Ty: u.Elem()}, nil
+		_ = es
+		return &CV{T: x.heapRead(env.st, u.Elem(), sBase(bt), App(SBV64, "bvadd", sOff(bt), it)), Ty: u.Elem()}, nil
 	case *types.Basic:
 		if isString(b.Ty) {
 			return &CV{T: App(SBV8, "gs.at", bt, it), Ty: types.Typ[types.Uint8]}, nil
@@ -700,7 +702,7 @@ func (x *Exec) evalSel(env *CEnv, n *CSel) (*CV, error) {
 		loc := x.locOfCV(b, pt.Elem())
 		cur = x.load(env.st, loc)
 		if env.specHeaps != nil {
-			env.specHeaps[x.heapName(x.sortOf(pt.Elem()))] = true
+			env.specHeaps[x.heapName(pt.Elem())] = true
 		}
 		t = pt.Elem()
 	} else {
@@ -724,7 +726,7 @@ func (x *Exec) evalSel(env *CEnv, n *CSel) (*CV, error) {
 				loc := x.locOfPtr(cur, pt.Elem())
 				cur = x.load(env.st, loc)
 				if env.specHeaps != nil {
-					env.specHeaps[x.heapName(x.sortOf(pt.Elem()))] = true
+					env.specHeaps[x.heapName(pt.Elem())] = true
 				}
 				t = pt.Elem()
 				st = t.Underlying().(*types.Struct)
@@ -1042,7 +1044,21 @@ func (x *Exec) callSpec(env *CEnv, sp *SpecFunc, n *CCall) (*CV, error) {
 			args = append(args, Term{h + "_init", x.heapSorts[h]})
 		}
 	}
-	return &CV{T: App(cs.retS, cs.name, args...), Ty: cs.ret}, nil
+	app := App(cs.retS, cs.name, args...)
+	if sp.Rec && !env.noUnfold && !env.inSpec && !strings.Contains(app.S, "!q") && !strings.Contains(app.S, "!abs") && !x.unfolded[app.S] {
+		// one-level unfolding of the definition for this instance
+		x.unfolded[app.S] = true
+		inst := &CEnv{x: x, st: env.st, old: env.st, vars: map[string]*CV{}, pkg: x.w.typesPkg(sp.Pkg), noUnfold: true}
+		for i, p := range sp.Params {
+			inst.vars[p.Name] = &CV{T: args[i], Ty: cs.params[i]}
+		}
+		bv, err := x.eval(inst, sp.Body)
+		if err != nil {
+			return nil, fmt.Errorf("unfolding %s: %v", sp.Name, err)
+		}
+		x.sc.Assume(Eq(app, x.cvTerm(bv, &CV{T: Term{"", cs.retS}})))
+	}
+	return &CV{T: app, Ty: cs.ret}, nil
 }
 
 func (x *Exec) compileSpec(env *CEnv, sp *SpecFunc) (*compiledSpec, error) {
@@ -1091,6 +1107,7 @@ func (x *Exec) compileSpec(env *CEnv, sp *SpecFunc) (*compiledSpec, error) {
 		cs.heaps = sortedKeys(heaps)
 		x.specs[key] = cs
 		st := &State{reach: TTrue, heaps: map[string]Term{}, cells: map[cellKey]Term{}, ghost: map[string]Term{}, alloc: Term{"alloc_spec", ArraySort(SInt, SBool)}}
+		penv.inSpec = true
 		for h := range x.heapSorts {
 			st.heaps[h] = Term{"h_" + h, x.heapSorts[h]}
 		}
@@ -1135,6 +1152,16 @@ func (x *Exec) compileSpec(env *CEnv, sp *SpecFunc) (*compiledSpec, error) {
 	bs := body.S
 	for _, h := range cs.heaps {
 		bs = strings.ReplaceAll(bs, h+"_init", "h_"+h)
+	}
+	if sp.Rec {
+		var sorts []string
+		for _, b := range all {
+			f := strings.SplitN(strings.TrimSuffix(strings.TrimPrefix(b, "("), ")"), " ", 2)
+			sorts = append(sorts, f[1])
+		}
+		x.opaqueSpecs[cs.name] = true
+		x.sc.Decl("spec:"+key, fmt.Sprintf("(declare-fun %s (%s) %s)", cs.name, strings.Join(sorts, " "), cs.retS))
+		return cs, nil
 	}
 	if sp.Opaque {
 		// uninterpreted symbol + definitional axiom triggered on its applications
